@@ -12,26 +12,26 @@ verus! {
 //@INCLUDE genpost_lemmas.rs
 
 impl Compiler {
-//@ASSUMES unit=c12_callsite.rs fn=arm_bool req="gen_inv(*old(self))" clause="r is Ok ==> gen_post(*old(self), *final(self), true)" clause2="sym_wf(final(self).symbols)" clauseH=1
-//@ASSUMES unit=c12_callsite.rs fn=arm_float req="gen_inv(*old(self))" clause="r is Ok ==> gen_post(*old(self), *final(self), true)" clause2="sym_wf(final(self).symbols)" clauseH=1
-//@ASSUMES unit=c12_callsite.rs fn=arm_int req="gen_inv(*old(self))" clause="r is Ok ==> gen_post(*old(self), *final(self), true)" clause2="sym_wf(final(self).symbols)" clauseH=1
-//@ASSUMES unit=c12_callsite.rs fn=arm_string req="gen_inv(*old(self))" clause="r is Ok ==> gen_post(*old(self), *final(self), true)" clause2="sym_wf(final(self).symbols)" clauseH=1
-//@ASSUMES unit=c09_slots.rs fn=arm_identifier req="gen_inv(*old(self))" clause="r is Ok ==> gen_post(*old(self), *final(self), true)" clause2="sym_wf(final(self).symbols)" clauseH=1
-//@ASSUMES unit=c12_callsite.rs fn=arm_prefix req="gen_inv(*old(self))" clause="r is Ok ==> gen_post(*old(self), *final(self), true)" clause2="sym_wf(final(self).symbols)" clauseH=1
-//@ASSUMES unit=c09_slots.rs fn=arm_assign req="gen_inv(*old(self))" clause="r is Ok ==> gen_post(*old(self), *final(self), true)" clause2="sym_wf(final(self).symbols)" clauseH=1
-//@ASSUMES unit=c10_fused.rs fn=arm_infix req="gen_inv(*old(self)), operator_sem(*operator) != op_none()" clause="r is Ok ==> gen_post(*old(self), *final(self), true)" clause2="sym_wf(final(self).symbols)" clauseH=1
-//@ASSUMES unit=c11_control.rs fn=arm_if req="gen_inv(*old(self))" clause="r is Ok ==> gen_post(*old(self), *final(self), true)" clause2="sym_wf(final(self).symbols)" clauseH=1
-//@ASSUMES unit=c11_control.rs fn=arm_while req="gen_inv(*old(self))" clause="r is Ok ==> gen_post(*old(self), *final(self), true)" clause2="sym_wf(final(self).symbols)" clauseH=1
-//@ASSUMES unit=c02_blocks.rs fn=arm_function req="gen_inv(*old(self))" clause="r is Ok ==> gen_post(*old(self), *final(self), true)" clause2="sym_wf(final(self).symbols)" clauseH=1
-//@ASSUMES unit=c12_callsite.rs fn=arm_call req="gen_inv(*old(self))" clause="r is Ok ==> gen_post(*old(self), *final(self), true)" clause2="sym_wf(final(self).symbols)" clauseH=1
-//@ASSUMES unit=c12_callsite.rs fn=arm_array req="gen_inv(*old(self))" clause="r is Ok ==> gen_post(*old(self), *final(self), true)" clause2="sym_wf(final(self).symbols)" clauseH=1
-//@ASSUMES unit=c12_callsite.rs fn=arm_index req="gen_inv(*old(self))" clause="r is Ok ==> gen_post(*old(self), *final(self), true)" clause2="sym_wf(final(self).symbols)" clauseH=1
-//@ASSUMES unit=c12_callsite.rs fn=arm_stmt_expr req="gen_inv(*old(self))" clause="r is Ok ==> gen_post(*old(self), *final(self), true)" clause2="sym_wf(final(self).symbols)" clauseH=1
-//@ASSUMES unit=c12_callsite.rs fn=arm_stmt_block req="gen_inv(*old(self))" clause="r is Ok ==> gen_post(*old(self), *final(self), true)" clause2="sym_wf(final(self).symbols)" clauseH=1
-//@ASSUMES unit=c09_slots.rs fn=arm_let req="gen_inv(*old(self))" clause="r is Ok ==> gen_post(*old(self), *final(self), true)" clause2="sym_wf(final(self).symbols)" clauseH=1
-//@ASSUMES unit=c12_callsite.rs fn=arm_stmt_return req="gen_inv(*old(self))" clause="r is Ok ==> gen_post(*old(self), *final(self), true)" clause2="sym_wf(final(self).symbols)" clauseH=1
-//@ASSUMES unit=c11_control.rs fn=arm_break req="gen_inv(*old(self))" clause="r is Ok ==> gen_post(*old(self), *final(self), true)" clause2="sym_wf(final(self).symbols)" clauseH=1
-//@ASSUMES unit=c11_control.rs fn=arm_continue req="gen_inv(*old(self))" clause="r is Ok ==> gen_post(*old(self), *final(self), true)" clause2="sym_wf(final(self).symbols)" clauseH=1
+//@ASSUMES unit=c12_callsite.rs fn=arm_bool req="gen_inv(*old(self))" clause="r is Ok ==> gen_post(*old(self), *final(self), true)" clause2="sym_wf(final(self).symbols)" clause3="sym_globals_kept(old(self).symbols, final(self).symbols)" clauseH=1
+//@ASSUMES unit=c12_callsite.rs fn=arm_float req="gen_inv(*old(self))" clause="r is Ok ==> gen_post(*old(self), *final(self), true)" clause2="sym_wf(final(self).symbols)" clause3="sym_globals_kept(old(self).symbols, final(self).symbols)" clauseH=1
+//@ASSUMES unit=c12_callsite.rs fn=arm_int req="gen_inv(*old(self))" clause="r is Ok ==> gen_post(*old(self), *final(self), true)" clause2="sym_wf(final(self).symbols)" clause3="sym_globals_kept(old(self).symbols, final(self).symbols)" clauseH=1
+//@ASSUMES unit=c12_callsite.rs fn=arm_string req="gen_inv(*old(self))" clause="r is Ok ==> gen_post(*old(self), *final(self), true)" clause2="sym_wf(final(self).symbols)" clause3="sym_globals_kept(old(self).symbols, final(self).symbols)" clauseH=1
+//@ASSUMES unit=c09_slots.rs fn=arm_identifier req="gen_inv(*old(self))" clause="r is Ok ==> gen_post(*old(self), *final(self), true)" clause2="sym_wf(final(self).symbols)" clause3="sym_globals_kept(old(self).symbols, final(self).symbols)" clauseH=1
+//@ASSUMES unit=c12_callsite.rs fn=arm_prefix req="gen_inv(*old(self))" clause="r is Ok ==> gen_post(*old(self), *final(self), true)" clause2="sym_wf(final(self).symbols)" clause3="sym_globals_kept(old(self).symbols, final(self).symbols)" clauseH=1
+//@ASSUMES unit=c09_slots.rs fn=arm_assign req="gen_inv(*old(self))" clause="r is Ok ==> gen_post(*old(self), *final(self), true)" clause2="sym_wf(final(self).symbols)" clause3="sym_globals_kept(old(self).symbols, final(self).symbols)" clauseH=1
+//@ASSUMES unit=c10_fused.rs fn=arm_infix req="gen_inv(*old(self)), operator_sem(*operator) != op_none()" clause="r is Ok ==> gen_post(*old(self), *final(self), true)" clause2="sym_wf(final(self).symbols)" clause3="sym_globals_kept(old(self).symbols, final(self).symbols)" clauseH=1
+//@ASSUMES unit=c11_control.rs fn=arm_if req="gen_inv(*old(self))" clause="r is Ok ==> gen_post(*old(self), *final(self), true)" clause2="sym_wf(final(self).symbols)" clause3="sym_globals_kept(old(self).symbols, final(self).symbols)" clauseH=1
+//@ASSUMES unit=c11_control.rs fn=arm_while req="gen_inv(*old(self))" clause="r is Ok ==> gen_post(*old(self), *final(self), true)" clause2="sym_wf(final(self).symbols)" clause3="sym_globals_kept(old(self).symbols, final(self).symbols)" clauseH=1
+//@ASSUMES unit=c02_blocks.rs fn=arm_function req="gen_inv(*old(self))" clause="r is Ok ==> gen_post(*old(self), *final(self), true)" clause2="sym_wf(final(self).symbols)" clause3="sym_globals_kept(old(self).symbols, final(self).symbols)" clauseH=1
+//@ASSUMES unit=c12_callsite.rs fn=arm_call req="gen_inv(*old(self))" clause="r is Ok ==> gen_post(*old(self), *final(self), true)" clause2="sym_wf(final(self).symbols)" clause3="sym_globals_kept(old(self).symbols, final(self).symbols)" clauseH=1
+//@ASSUMES unit=c12_callsite.rs fn=arm_array req="gen_inv(*old(self))" clause="r is Ok ==> gen_post(*old(self), *final(self), true)" clause2="sym_wf(final(self).symbols)" clause3="sym_globals_kept(old(self).symbols, final(self).symbols)" clauseH=1
+//@ASSUMES unit=c12_callsite.rs fn=arm_index req="gen_inv(*old(self))" clause="r is Ok ==> gen_post(*old(self), *final(self), true)" clause2="sym_wf(final(self).symbols)" clause3="sym_globals_kept(old(self).symbols, final(self).symbols)" clauseH=1
+//@ASSUMES unit=c12_callsite.rs fn=arm_stmt_expr req="gen_inv(*old(self))" clause="r is Ok ==> gen_post(*old(self), *final(self), true)" clause2="sym_wf(final(self).symbols)" clause3="sym_globals_kept(old(self).symbols, final(self).symbols)" clauseH=1
+//@ASSUMES unit=c12_callsite.rs fn=arm_stmt_block req="gen_inv(*old(self))" clause="r is Ok ==> gen_post(*old(self), *final(self), true)" clause2="sym_wf(final(self).symbols)" clause3="sym_globals_kept(old(self).symbols, final(self).symbols)" clauseH=1
+//@ASSUMES unit=c09_slots.rs fn=arm_let req="gen_inv(*old(self))" clause="r is Ok ==> gen_post(*old(self), *final(self), true)" clause2="sym_wf(final(self).symbols)" clause3="sym_globals_kept(old(self).symbols, final(self).symbols)" clauseH=1
+//@ASSUMES unit=c12_callsite.rs fn=arm_stmt_return req="gen_inv(*old(self))" clause="r is Ok ==> gen_post(*old(self), *final(self), true)" clause2="sym_wf(final(self).symbols)" clause3="sym_globals_kept(old(self).symbols, final(self).symbols)" clauseH=1
+//@ASSUMES unit=c11_control.rs fn=arm_break req="gen_inv(*old(self))" clause="r is Ok ==> gen_post(*old(self), *final(self), true)" clause2="sym_wf(final(self).symbols)" clause3="sym_globals_kept(old(self).symbols, final(self).symbols)" clauseH=1
+//@ASSUMES unit=c11_control.rs fn=arm_continue req="gen_inv(*old(self))" clause="r is Ok ==> gen_post(*old(self), *final(self), true)" clause2="sym_wf(final(self).symbols)" clause3="sym_globals_kept(old(self).symbols, final(self).symbols)" clauseH=1
 
     /// O02.ind.e  compile_expression: whatever the expression, on success the generator contract holds and the call is
     /// the one ghost-log entry its caller sees (the entries of the arm's own sub-calls are local to the arm).
@@ -45,7 +45,7 @@ impl Compiler {
             r is Ok ==> final(self).log@ == old(self).log@.push(entry_e(*expr, *old(self), *final(self))),
             r is Ok ==> gen_post(*old(self), *final(self), true),
             r is Ok ==> hstep(old(self).height@, final(self).height@, 1),
-            sym_wf(final(self).symbols),
+            sym_wf(final(self).symbols), sym_globals_kept(old(self).symbols, final(self).symbols),
     {
 //@GHOST before="Ok(())" let ghost s_arm = *self; proof { self.log = Ghost(old(self).log@.push(entry_e(*expr, *old(self), *self))); lemma_gen_post_ghost(*old(self), s_arm, *self, true); }
 //@DISPATCH file=compiler.rs fn=compile_expression impl=Compiler sig="fn compile_expression(&mut self, expr: &Expr) -> Result<(), Error>" map="Expr::Bool { value }=>self.arm_bool(value)|Expr::Float { value }=>self.arm_float(value)|Expr::Int { value }=>self.arm_int(value)|Expr::String { value }=>self.arm_string(value)|Expr::Identifier(name)=>self.arm_identifier(name)|Expr::Prefix { operator, right }=>self.arm_prefix(operator, right)|Expr::Assign { left, right }=>self.arm_assign(left, right)|Expr::Infix { left, operator, right, }=>self.arm_infix(left, operator, right)|Expr::If { condition, consequence, alternative, }=>self.arm_if(condition, consequence, alternative)|Expr::While { condition, body }=>self.arm_while(condition, body)|Expr::Function { name, parameters, body, }=>self.arm_function(name, parameters, body)|Expr::Call { left, arguments }=>self.arm_call(left, arguments)|Expr::Array { values }=>self.arm_array(values)|Expr::Index { left, index }=>self.arm_index(left, index)"
@@ -59,7 +59,7 @@ impl Compiler {
             r is Ok ==> final(self).log@ == old(self).log@.push(entry_s(*stmt, *old(self), *final(self))),
             r is Ok ==> gen_post(*old(self), *final(self), true),
             r is Ok ==> hstep(old(self).height@, final(self).height@, 0),
-            sym_wf(final(self).symbols),
+            sym_wf(final(self).symbols), sym_globals_kept(old(self).symbols, final(self).symbols),
     {
 //@GHOST before="Ok(())" let ghost s_arm = *self; proof { self.log = Ghost(old(self).log@.push(entry_s(*stmt, *old(self), *self))); lemma_gen_post_ghost(*old(self), s_arm, *self, true); }
 //@DISPATCH file=compiler.rs fn=compile_statement impl=Compiler sig="fn compile_statement(&mut self, stmt: &Stmt) -> Result<(), Error>" map="Stmt::Expr(expr)=>self.arm_stmt_expr(expr)|Stmt::Block(stmts)=>self.arm_stmt_block(stmts)|Stmt::Let(name, value)=>self.arm_let(name, value)|Stmt::Return(expr)=>self.arm_stmt_return(expr)|Stmt::Break=>self.arm_break()|Stmt::Continue=>self.arm_continue()"
